@@ -121,9 +121,11 @@ def oracle(ctx, label, spec, obs):
             got = f['engine']['credential']
             got = (got[0], got[1]) if got is not None else None
             if want is None:
-                odd = [s for s in statuses if s not in (200, 404)]
-                ctx.violation({'kind': 'engine-entered-unestablished', 'odd_status': odd[0] if odd else None}, w,
+                odd = [x for x in statuses if x not in (200, 404)]
+                ctx.violation({'kind': 'engine-entered-unvouched' if odd else 'engine-entered-unestablished',
+                               'slugs_status_class': 'neither-200-nor-404' if odd else None}, w,
                               'request processing entered although no identity could be established from certificate/plugins')
+                continue
             elif got != want:
                 ctx.violation({'kind': 'wrong-identity'}, w, 'identity handed to request processing differs from the one established')
             if f['ncalls'] != 1:
@@ -150,7 +152,6 @@ def oracle(ctx, label, spec, obs):
 
 def run(ctx):
     quick = ctx.tier == 'quick'
-    c12.local_findings(ctx)
     ctx.cov['rule'] = (
         'full product: certificate {absent; 0/1/2 common names x EKU absent/serverAuth only/clientAuth(/both)} x '
         'enable_tls_client_auth {on, off} x plugin configuration {none; disabled 4 ways; unsupported/prefix names; one SLUGS '
